@@ -105,3 +105,37 @@ func verifSameAgg(a, b any) bool {
 	}
 	return false
 }
+
+// VerifC03PercentileParam: percentile(v, p) with the second argument as written in SQL - an integer
+// literal (0, 1) or a fraction - created the way the aggregation layer does
+// (CreateParameterizedAggregator with the parsed literal): the result is the documented order statistic
+// sorted[floor(p*(n-1))] of the group's values: p = 0 the minimum, p = 1 the maximum.
+func VerifC03PercentileParam() {
+	ps := []any{0, 1, 0.0, 1.0, 0.5}
+	pf := []float64{0, 1, 0, 1, 0.5}
+	k := zzverif.Param("p", 0)
+	agg, err := CreateParameterizedAggregator("percentile", []any{"v", ps[k]})
+	if err != nil || agg == nil {
+		panic("cannot create percentile")
+	}
+	inst := agg.New()
+	n := zzverif.Param("n", 3)
+	vals := make([]float64, n)
+	for i := range vals {
+		x := int(int8(zzverif.NondetU64("v", 8)))
+		vals[i] = float64(x)
+		inst.Add(x)
+	}
+	// reference: sort (non-branching compare-exchange), take index floor(p*(n-1))
+	sorted := append([]float64(nil), vals...)
+	for i := 1; i < n; i++ {
+		for j := i; j > 0; j-- {
+			lo := zzverif.IteF(sorted[j] < sorted[j-1], sorted[j], sorted[j-1])
+			hi := zzverif.IteF(sorted[j] < sorted[j-1], sorted[j-1], sorted[j])
+			sorted[j-1], sorted[j] = lo, hi
+		}
+	}
+	want := sorted[int(pf[k]*float64(n-1))]
+	got, ok := inst.Result().(float64)
+	zzverif.Assert(ok && got == want, "percentile-is-the-documented-order-statistic-for-the-written-p")
+}
